@@ -85,21 +85,21 @@ func (r *RunResult) fail(prop, clause, fp, format string, a ...any) {
 
 // Check is one registered property check.
 type Check struct {
-	ID          string
-	Level       string
-	NeedsRace   bool // every run executes under the scheduler with the race detector
-	Isolated    bool // shrink candidates must run in fresh processes
+	ID        string
+	Level     string
+	NeedsRace bool // every run executes under the scheduler with the race detector
+	Isolated  bool // shrink candidates must run in fresh processes
 	// HistoryProbe: sampled runs are repeated in a fresh process and their notes
 	// compared: the run must not depend on the runs the worker executed before
 	HistoryProbe bool
-	Run         func(w *verifrt.World, tier Tier) *RunResult
-	Prepare     func(scratch string) error // parent-side set-up before workers start
-	Runs        [2]int // run budget per tier (total over all workers)
-	MaxSeconds  [2]int
-	Rule        string
-	Assumptions []string
-	Real, Stub  []string
-	Unchecked   []string
+	Run          func(w *verifrt.World, tier Tier) *RunResult
+	Prepare      func(scratch string) error // parent-side set-up before workers start
+	Runs         [2]int                     // run budget per tier (total over all workers)
+	MaxSeconds   [2]int
+	Rule         string
+	Assumptions  []string
+	Real, Stub   []string
+	Unchecked    []string
 	// Probes that must be non-zero in the thorough tier
 	MustHit []string
 }
